@@ -123,7 +123,8 @@ func FilterFromProto(schema *sqlgen.Schema, proto *thunderpb.SQLFilter) (string,
 			return "", nil, fmt.Errorf("unknown column %s", col)
 		}
 
-		if !column.Descriptor.Ptr && val == nil {
+		// NULL is the stored form of the zero value of an implicitnull column.
+		if !column.Descriptor.Ptr && val == nil && !column.Descriptor.Tags.Contains("implicitnull") {
 			return "", nil, errors.New("cannot unmarshal nil into non-pointer type")
 		}
 
